@@ -96,7 +96,7 @@ func errKind(err error) string {
 
 var hugeEvery = 60
 
-var parseTests = []string{"mode=emacs", "mode=vi", "term=xterm", "term=rxvt", "Bash", "bash", "other", "mode=", "term=xterm-256color", ""}
+var parseTests = []string{"mode=emacs", "mode=vi", "term=xterm", "term=rxvt", "Bash", "bash", "other", "mode=", "term=xterm-256color", "", "term=Eterm", "term=eterm", "mode=Vi", "Mode=vi", "TERM=xterm"}
 var parseActs = []string{
 	"set completion-query-items %d", "set bell-style visible", "set blink-matching-paren on", "set blink-matching-paren 1", "set blink-matching-paren Off",
 	"set newvar %d", "set newvar on", "set newvar x", "set completion-query-items abc", "set completion-query-items 99999999999999999999",
@@ -105,6 +105,7 @@ var parseActs = []string{
 	"\"\\C-x%d\": kill-line", "\"\\ex\": \"macro %d\"", "Control-a: beginning-of-line", "Meta-Control-r: revert-line", "a: self-insert", "TAB: complete",
 	"\"\\x1b[A\": previous-history", "\"\\M-x\": yank", "$include other", "$include self", "$include missing", "$include", "$custom arg%d", "$custom",
 	"# comment", "", "   ", "\"unterminated: x", "\"k\": \"unterminated", "nocolon", "Bogus-a: x", "set", "set ", "set x", "é: self-insert", "\"é\": \"ü%d\"",
+	"set newvar \"never closed %d\\", "set newvar 'never closed\\", "set newvar \"never closed %d", "set newvar \"closed %d\" more", "\"k%d\\", "\"k\": \"never closed\\",
 }
 
 func renderBlk(r *rand.Rand, depth int, out *[]string, stats *[3]int) {
@@ -180,7 +181,7 @@ func init() {
 		hugeEvery = 2
 	}
 	modes := []string{"emacs", "vi", ""}
-	terms := []string{"xterm", "rxvt", ""}
+	terms := []string{"xterm", "rxvt", "", "Eterm"}
 	apps := []string{"bash", "other", ""}
 	register(&model{name: "parse", gen: func(r *rand.Rand) (string, string, string) {
 		text, class := genProgram(r)
@@ -213,7 +214,7 @@ func init() {
 		text, other = limit(text, k), limit(other, 1)
 		files := map[string]string{"self": text, "other": other}
 		halt, strict := r.Intn(4) == 0, r.Intn(3) == 0
-		mode, term, app := modes[r.Intn(3)], terms[r.Intn(3)], apps[r.Intn(3)]
+		mode, term, app := modes[r.Intn(3)], terms[r.Intn(4)], apps[r.Intn(3)]
 		b := func(x bool) string {
 			if x {
 				return "1"
